@@ -571,3 +571,35 @@ Proof. reflexivity. Qed.
 Lemma loop_writers_chan_instances :
   f_chan twcc_sender_cfg = ChUnbufSel /\ f_chan rfc8888_cfg = ChUnbufSel /\ f_chan packetdump_cfg = ChUnbufSel.
 Proof. repeat split; reflexivity. Qed.
+
+(* interceptors without a blocking hand-off (nack generator/responder, report receiver/sender, intervalpli
+   after its fix, stats, pacing, gcc, jitter buffer, flexfec): a packet Read/Write never parks, in any
+   state and whatever the two extra bits say - a loop that gave up can strand nobody there *)
+Definition no_blocking_hand_off (c : cfg) : bool :=
+  match f_chan c with ChNone | ChBufNB => true | _ => false end.
+
+Lemma x_traffic_never_parks xc s t x s' : no_blocking_hand_off (x_base xc) = true ->
+  xstep xc s (XL (Call t (OTraffic x))) = Some s' -> bfind t (blocked s') = None.
+Proof.
+  unfold no_blocking_hand_off. intros HB H. cbn [xstep step] in H.
+  destruct (bfind t (blocked s)) eqn:Bt; [discriminate|]. inversion H; subst; clear H.
+  cbn [call]. destruct (f_site (x_base xc)); auto.
+  match goal with |- context [send_or_park ?c ?s1 t x false true] =>
+    destruct (do_send_nb_some c s1 x true HB) as [s2 E]; eapply sop_nopark; eauto end.
+Qed.
+
+Lemma no_blocking_hand_off_instances :
+  forallb no_blocking_hand_off [nack_generator_cfg; nack_responder_cfg; report_receiver_cfg; report_sender_cfg;
+    intervalpli_cfg; stats_cfg; pacing_cfg; gcc_cfg; jitterbuffer_cfg; flexfec_cfg; chain_cfg] = true.
+Proof. reflexivity. Qed.
+
+(* gcc before its fix: the per-stream entry (the pacer's writer of the stream) survives Unbind *)
+Lemma gcc_nounbind_keeps_entry : exists tr s,
+  run gcc_nounbind_cfg (init gcc_nounbind_cfg) tr = Some s /\ In 1 (dead s) /\ tfind 1 (table s) <> None.
+Proof.
+  exists [Call 0 (OBind 1); Call 0 (OTraffic 1); Call 0 (OUnbind 1)].
+  eexists. split; [vm_compute; reflexivity|]. split; [cbn; auto|]. cbn. discriminate.
+Qed.
+
+Lemma gcc_unbind_safe : unbind_safe gcc_cfg = true /\ unbind_safe gcc_nounbind_cfg = false.
+Proof. split; reflexivity. Qed.
